@@ -706,6 +706,9 @@ class Interp:
         if k == "constindex":
             items = self.seq_items(v)
             return items[-p[1]] if p[2] else items[p[1]]
+        if k == "subslice":
+            sv = v if isinstance(v, SliceV) else SliceV(self.seq_items(v))
+            return sv.sub(p[1], len(sv) - p[2] if p[3] else p[2])
         raise Unsupported("projection %r" % (p,))
 
     def seq_items(self, v):
@@ -1043,6 +1046,8 @@ class Interp:
             if mut:
                 key, path = self.resolve(pl, fr, st)
                 return Ref(key, path)
+            if pl.proj and pl.proj[-1][0] == "subslice":
+                return self.read_place(pl, fr, st)          # &x[a..b]: the fat pointer is the window itself
             return ValRef(self.read_place(pl, fr, st))
         if k == "addr":
             mut, pl = a
@@ -1207,6 +1212,13 @@ class Interp:
         return acc
 
     def binop(self, name, x, y, ty):
+        from .stdmodel import ByteLen, bytelen_binop
+        if isinstance(x, ByteLen) or isinstance(y, ByteLen):
+            r = bytelen_binop(self, name, x, y, ty)
+            if r is not NotImplemented:
+                return r
+            x = x.term() if isinstance(x, ByteLen) else x
+            y = y.term() if isinstance(y, ByteLen) else y
         bits = self.int_bits(ty)
         if bits is not None and (isinstance(x, Union) or isinstance(y, Union)):
             x, y = self.scalarize(x, bits[0]), self.scalarize(y, bits[0])
@@ -1284,6 +1296,15 @@ class Interp:
         # symbolic
         X = x if is_sym(x) else z3.BitVecVal(x, w)
         Y = y if is_sym(y) else z3.BitVecVal(y, w)
+        if name.replace("Unchecked", "") in ("Shl", "Shr"):
+            # MIR Shl/Shr: the shift amount may have another width and is taken modulo the width of the left operand
+            # (the overflow check of the dev profile is a separate Assert)
+            wx = X.size()
+            if Y.size() > wx:
+                Y = z3.Extract(wx - 1, 0, Y & z3.BitVecVal(wx - 1, Y.size()))
+            elif Y.size() < wx:
+                Y = z3.ZeroExt(wx - Y.size(), Y)
+            Y = Y & z3.BitVecVal(wx - 1, wx)
         if X.size() != Y.size():
             raise Unsupported("binop width mismatch %s: %d vs %d" % (name, X.size(), Y.size()))
         w = X.size()
@@ -1357,9 +1378,9 @@ class Interp:
             # symbolic: fork
             from .stdmodel import ByteLen
             if isinstance(v, ByteLen):
-                if all(c == 0 for c, _ in t.cases) and t.otherwise is not None:
+                if v.add == 0 and all(c == 0 for c, _ in t.cases) and t.otherwise is not None:
                     return ("goto", t.otherwise)
-                raise Unsupported("switchInt on a byte length of symbolic text")
+                v = v.term()
             if isinstance(v, Union):
                 paths = []
                 for g, x in v.alts:
@@ -1368,10 +1389,10 @@ class Interp:
                     if isinstance(x, bool):
                         x = int(x)
                     if isinstance(x, ByteLen):
-                        if all(c == 0 for c, _ in t.cases) and t.otherwise is not None:
+                        if x.add == 0 and all(c == 0 for c, _ in t.cases) and t.otherwise is not None:
                             paths.append((st.fork(b_simpl(g)), t.otherwise))
                             continue
-                        raise Unsupported("switchInt on a byte length of symbolic text")
+                        raise Unsupported("switchInt on a byte length of symbolic text inside a union")
                     if not isinstance(x, int):
                         raise Unsupported("switchInt on union alternative %r" % (x,))
                     tgt = t.otherwise
@@ -1546,6 +1567,12 @@ class Interp:
             h = self.intrinsics.get(k)
             if h is not None:
                 return h
+        if len(names) == 1 and path.qself is None and names[0] not in self.P.funcs:
+            # a winnow function imported by name (`use winnow::token::take_till`) is printed bare in that file's MIR
+            for pre in ("token::", "combinator::", "ascii::"):
+                h = self.intrinsics.get(pre + names[0])
+                if h is not None:
+                    return h
         return None
 
     def call_value(self, callee, args, st):
@@ -1589,6 +1616,8 @@ class Interp:
             raise PanicExc(panics[0][1].msg, panics[0][1].site)
         if panics:
             raise Unsupported("conditional panic inside an iterator adaptor closure")
+        if len(normal) != 1:
+            raise Unsupported("closure forked where a single outcome is required")
         s2, v = normal[0]
         st.store = s2.store
         st.pc = s2.pc
